@@ -29,6 +29,12 @@ def MAX_DEPTH : Nat := 32
 /-- engine/definition.rs `MAX_DEFINITION_SIZE` -/
 def MAX_DEFINITION_SIZE : Nat := 65535
 
+/-- skrifa/src/outline/glyf/mod.rs `Outlines::new`: `maxp.max_function_defs().map(|count| count.max(MIN_FUNCTION_DEFS))`
+    — the length of the function definition table of a font whose version 1.0 `maxp` announces `n` functions
+    (FreeType ttload.c `tt_face_load_maxp`: at least 64). Instruction definitions: the `maxp` value itself. -/
+def MIN_FUNCTION_DEFS : Nat := 64
+def functionSlots (maxpFunctionDefs : Nat) : Nat := max maxpFunctionDefs MIN_FUNCTION_DEFS
+
 /-- `HintErrorKind`, payloads dropped. `data n` = any error raised by a non-control opcode. -/
 inductive Err
   | unexpectedEnd | unhandledOpcode | defInGlyph | nestedDef | defTooLarge | tooManyDefs
